@@ -30,6 +30,8 @@ FIXTURE = [
     "insert into u values " + ",".join(f"({a},{b})" for a, b in U_ROWS),
     "create table w (id int, x int)",
     "insert into w values " + ",".join(f"({a},{b})" for a, b in U_ROWS),
+    "create table m2 (id int, p0 number(10,0), d number(10,2), s varchar)",
+    "insert into m2 values " + ",".join(f"({i},{i * 100},{i}.75,'v{i}')" for i in range(1, N_ROWS + 1)),
     "create table m (i int, s varchar, d number(10,2), dt date, z varchar, f float, bo boolean)",
     "insert into m values "
     + ",".join(f"({i},'{s}',{d},'{dt.isoformat()}',NULL,{f},{str(bo).lower()})" for i, s, d, dt, z, f, bo in MIXED),
@@ -55,11 +57,28 @@ COLSETS = {
         ["I", "S", "D", "DT", "Z", "F", "BO"],
         lambda i: MIXED[i - 1],
     ),
+    # repeated column name over columns of *different* types (NUMBER(p,0) -> int, NUMBER(p,s) -> Decimal, text)
+    "numdup": (
+        "select p0 as n, d as n, s as n from m2 where id <= {n} order by id",
+        ["N", "N", "N"],
+        lambda i: (i * 100, decimal.Decimal(f"{i}.75"), f"v{i}"),
+    ),
+    "numdup2": (
+        "select d as x, p0 as x, p0 from m2 where id <= {n} order by id",
+        ["X", "X", "P0"],
+        lambda i: (decimal.Decimal(f"{i}.75"), i * 100, i * 100),
+    ),
     "desc": ("select a, b from t where a <= {n} order by a desc", ["A", "B"], None),  # reverse order
+    # a statement answered by the nop_regexes option (the instance is created with nop_regexes=[NOP_REGEX]): also an
+    # execute, so it must replace the previous result set completely
+    "nop": ("call some_procedure({n})", ["status"], None),
 }
+NOP_REGEX = r"^call\b"
 
 
 def shape_rows(cs: str, n: int):
+    if cs == "nop":
+        return [("Statement executed successfully.",)]
     if cs == "desc":
         return [(i, f"r{i}") for i in range(n, 0, -1)]
     return [COLSETS[cs][2](i) for i in range(1, n + 1)]
@@ -67,10 +86,10 @@ def shape_rows(cs: str, n: int):
 
 def shapes(tier):
     ns = [0, 2, 3] if tier == "quick" else [0, 1, 2, 3, 5]
-    return [(cs, n) for cs in COLSETS for n in ns]
+    return [(cs, n) for cs in COLSETS if cs != "nop" for n in ns] + [("nop", 1)]
 
 
-REEXEC_TARGETS = [("aa", 2), ("ab", 0), ("mixed", 3)]
+REEXEC_TARGETS = [("aa", 2), ("ab", 0), ("mixed", 3), ("nop", 1)]
 
 
 def ops_for(state, tier):
@@ -147,7 +166,7 @@ def _conn():
     if "conn" not in _WORK:
         import fakesnow.instance as inst
 
-        fs = inst.FakeSnow()
+        fs = inst.FakeSnow(nop_regexes=[NOP_REGEX])
         conn = fs.connect(database="db1", schema="s1")
         cur = conn.cursor()
         for s in FIXTURE:
@@ -325,6 +344,18 @@ def expand(item, acc: core.Acc, tier):
         if bad:
             clause, cls, detail = bad
             acc.violation(clause, cls, detail, {"kind": kind, "history": list(hist), "op": op})
+        # lookahead: after *every* transition the rest of the result must be exactly what the model says is left
+        # (state hidden from the abstract state, e.g. a stale fetch index surviving a re-execute, shows up here even
+        # though the successor state is deduplicated against a state reached by a shorter history)
+        if model.rows is not None and not bad:
+            m2, exp2, got2 = run_history(kind, list(hist) + [op], ("all",))
+            acc.count("evaluations")
+            acc.count("lookahead_drains")
+            acc.obs(("drain", got2))
+            bad2 = compare(kind, m2, ("all",), exp2, got2, names_unique)
+            if bad2:
+                clause, cls, detail = bad2
+                acc.violation(clause, cls + f",after={op[0]}", detail, {"kind": kind, "history": list(hist) + [op], "op": ("all",)})
         nk = model.key(kind)
         succ.append((nk, list(hist) + [op]))
     acc.sample({"state": state, "history": hist, "ops_explored": len(ops_for(state, tier))})
